@@ -177,6 +177,39 @@ fn descriptor(id: &[u8]) -> webauthn::PublicKeyCredentialDescriptor {
     }
 }
 
+/// what a relying party would check on an assertion, with real crypto: the signature verifies under the
+/// public key of the held credential named in the response, over authenticator data || client data hash
+fn assertion_binding(resp: &get_assertion::Response, held: &[Passkey], rp: &str, cdh: &[u8]) -> Value {
+    use p256::ecdsa::signature::Verifier;
+    use sha2::{Digest, Sha256};
+    let id = resp.credential.as_ref().map(|c| c.id.clone());
+    let pk = id.as_ref().and_then(|id| held.iter().find(|p| p.credential_id == *id));
+    let mut msg = resp.auth_data.to_vec();
+    msg.extend_from_slice(cdh);
+    let verifies = pk.and_then(|p| {
+        let mut x = None;
+        let mut y = None;
+        for (l, v) in &p.key.params {
+            if *l == coset::Label::Int(-2) { x = v.as_bytes().cloned(); }
+            if *l == coset::Label::Int(-3) { y = v.as_bytes().cloned(); }
+        }
+        let (x, y) = (x?, y?);
+        if x.len() != 32 || y.len() != 32 { return None; }
+        let pt = p256::EncodedPoint::from_affine_coordinates(x.as_slice().into(), y.as_slice().into(), false);
+        let vk = p256::ecdsa::VerifyingKey::from_encoded_point(&pt).ok()?;
+        let sig = p256::ecdsa::Signature::from_der(&resp.signature).ok()?;
+        Some(vk.verify(&msg, &sig).is_ok())
+    });
+    let rp_hash: [u8; 32] = Sha256::digest(rp.as_bytes()).into();
+    json!({
+        "verifies": verifies,
+        "credential_held_for_rp": pk.map(|p| p.rp_id == rp),
+        "rp_hash_ok": resp.auth_data.rp_id_hash() == &rp_hash[..],
+        "attested": resp.auth_data.attested_credential_data.is_some(),
+        "user_handle_matches": pk.map(|p| p.user_handle.as_ref().map(|h| h.to_vec()) == resp.user.as_ref().map(|u| u.id.to_vec())),
+    })
+}
+
 fn main() {
     let arg = std::env::args().nth(1).expect("scenario json");
     let sc: Value = serde_json::from_str(&arg).expect("valid json");
@@ -414,6 +447,7 @@ fn main() {
             held.push(pk);
         }
     }
+    let held_copy = held.clone();
     let store = Store { script: sc["store"].clone(), log: log.clone(), held };
     let user = User { script: sc["user"].clone(), log: log.clone() };
     let mut auth = Authenticator::new(Aaguid::new_empty(), store, user);
@@ -482,7 +516,8 @@ fn main() {
                         "flags": u8::from(resp.auth_data.flags),
                         "user": resp.user.is_some(),
                         "credential_first_byte": resp.credential.as_ref().map(|c| c.id[0]),
-                        "signature_len": resp.signature.len()}}),
+                        "signature_len": resp.signature.len(),
+                        "binding": assertion_binding(&resp, &held_copy, &rp, &[7u8; 32])}}),
                     Some(Err(e)) => json!({"err": u8::from(e)}),
                 }
             }
